@@ -178,6 +178,10 @@ func (w *writer) nl(def int, last bool) {
 			}
 			w.feat["no-final-newline"] = true
 		case 2:
+			if !w.comments {
+				w.emit(w.eol)
+				return
+			}
 			// trailing comment on the last line, no final newline. The documented pre-pass cuts at " #" and then
 			// removes trailing blanks, so any number of blanks (and tabs before them) may precede the '#'
 			switch w.pick(4, "eof_comment_gap") {
@@ -199,6 +203,10 @@ func (w *writer) nl(def int, last bool) {
 			w.emit("  " + w.eol)
 			w.feat["trailing-whitespace"] = true
 		case 5:
+			if !w.comments {
+				w.emit(w.eol)
+				return
+			}
 			w.emit(w.eol + "# end" + w.eol)
 			w.feat["comment-lines"] = true
 		default:
@@ -260,6 +268,14 @@ func Render(m *Model, c Chooser, o RenderOpts) *Rendered {
 	if w.pick(5, "crlf") == 4 {
 		w.eol = "\r\n"
 		w.feat["crlf"] = true
+		if w.pick(5, "cr_only") == 4 {
+			// a lone carriage return is a line end for the lexer too (NEWLINE: '\r'? '\n' | '\r' | '\f'). The documented
+			// comment pre-pass works on '\n'-separated lines, so such a file cannot carry comments.
+			w.eol = "\r"
+			w.comments = false
+			delete(w.feat, "crlf")
+			w.feat["cr-only-line-ends"] = true
+		}
 	}
 	// leading material
 	switch w.pick(6, "lead") {
@@ -268,8 +284,10 @@ func Render(m *Model, c Chooser, o RenderOpts) *Rendered {
 		w.emit(w.eol + w.eol)
 		w.feat["blank-lines"] = true
 	case 4:
-		w.emit("# leading comment" + w.eol + "  #" + w.commentText() + w.eol)
-		w.feat["comment-lines"] = true
+		if w.comments {
+			w.emit("# leading comment" + w.eol + "  #" + w.commentText() + w.eol)
+			w.feat["comment-lines"] = true
+		}
 	default:
 		w.emit("  ")
 		w.feat["odd-indent"] = true
